@@ -33,7 +33,7 @@ RULE = ('one evaluation = one seeded run: (hist) a single-client history of 20-2
         'pinned release and across two fresh interpreters with different PYTHONHASHSEED; (pairs) numerically equal int/float keys '
         'must map to one shard; non-trivial = at least 10 calls / at least one key compared; distinct = SHA-256 of the case')
 ASSUMPTIONS = ['histories use at most one member of each numerically-equal int/float pair (their split routing is known finding F11 and is probed separately)']
-PROBES = ('cull_expired', 'reopen', 'unpickled_handle', 'routing_keys_compared', 'xproc_runs', 'two_handles')
+PROBES = ('cull_expired', 'reopen', 'unpickled_handle', 'routing_keys_compared', 'xproc_runs', 'two_handles', 'reopen_with_new_limit')
 TECHNIQUE = 'deterministic simulation (virtual clock, simulated processes) + per-shard model-based checking; routing compared with a recorded table and across fresh interpreters with different hash seeds'
 LEVEL_TEXT = ('seeded exploration of call histories against per-shard reference models under the simulator, plus direct comparison '
               'of the routing function with a recorded table and across interpreters (the only nondeterminism the routing can depend on '
@@ -109,6 +109,8 @@ def gen_case(seed, tier):
             # multiprocessing hands to a worker): both must route every key as before
             op['how'] = rng.choice(('open', 'pickle'))
             op['proc'] = rng.randrange(nproc)
+            if op['how'] == 'open' and rng.random() < 0.3:
+                op['new_limit'] = rng.choice((2 ** 20, 2 ** 24, 3 * 2 ** 20))      # a restart with another configured limit
     if rng.random() < 0.5:
         prog.append({'op': 'checkall'})
     cfg = {'kind': 'hist', 'settings': settings, 'shards': shards, 'nproc': nproc,
@@ -166,6 +168,16 @@ def run_hist(case):
                     if len(handles[hi]._shards) != shards:
                         violations.append({'rule': 'C13/shard-count-changed', 'sig': 'pickle',
                                            'detail': 'unpickled handle has %d shards, the cache has %d' % (len(handles[hi]._shards), shards)})
+                elif op.get('new_limit'):
+                    handles[hi].close()
+                    handles[hi] = dc.FanoutCache(path, shards=shards, size_limit=op['new_limit'])
+                    total_limit = op['new_limit']
+                    for m in models:
+                        m.size_limit = total_limit / shards
+                    for other in handles:
+                        if other is not handles[hi]:
+                            other.reset('size_limit')      # the other handles reload the stored setting the documented way
+                    probes['reopen_with_new_limit'] = probes.get('reopen_with_new_limit', 0) + 1
                 else:
                     handles[hi].close()
                     handles[hi] = dc.FanoutCache(path, shards=shards)
